@@ -83,7 +83,7 @@ static std::vector<char> setMessage(const char *msg, unsigned arg_idx)
 {
     rtosc_arg_t arg      = rtosc_argument(msg, arg_idx);
     const char *addr     = rtosc_argument(msg, 0).s;
-    const char  types[2] = {rtosc_argument_string(msg)[2], 0};
+    const char  types[2] = {rtosc_type(msg, arg_idx), 0};
     //addresses can be longer than any fixed scratch buffer
     std::vector<char> res(rtosc_amessage(NULL, 0, addr, types, &arg));
     rtosc_amessage(res.data(), res.size(), addr, types, &arg);
@@ -122,7 +122,10 @@ bool UndoHistoryImpl::mergeEvent(time_t now, const char *msg, char *buf, size_t 
             args[1] = rtosc_argument(history[i].second,1);
             args[2] = rtosc_argument(msg, 2);
 
-            rtosc_amessage(buf, N, msg, rtosc_argument_string(msg), args);
+            //the old value keeps its own type (an address can take several)
+            const char types[4] = {'s', rtosc_type(history[i].second, 1),
+                                   rtosc_type(msg, 2), 0};
+            rtosc_amessage(buf, N, msg, types, args);
 
             delete [] history[i].second;
             history[i].second = buf;
